@@ -118,7 +118,8 @@ def evaluate(case):
             with np.errstate(all="ignore"):
                 _, gP, _ = tr.S_to_g(q, s, rF, OmittedXrangeCorrection=True, **kw)
             scg = max(1.0, float(np.abs(gF - 1).max()))
-            if exceeds(np.abs(np.asarray(gP) - gF).max(), 1e-9 * scg):
+            cond = fortran.lowq_conditioning(float(q[0]), float(s[0]), float(q[-1]), rF, case["lorch"], kw["rho"])
+            if not np.all(np.abs(np.asarray(gP) - gF) <= 1e-9 * scg + cond):
                 fails.append(f"S_to_g with the omitted-range correction differs from the compiled Fortran stog_bit by {np.abs(np.asarray(gP) - gF).max():.3g}")
     return fails
 
